@@ -78,7 +78,7 @@ def clean_cfg_run(n: TSNode) -> Bool:
 
 
 # ------------------------------------------------------------------ rust_context.py
-@contract(C + "_get_node_text", props=["C17", "C02"], types=dict(node=TSNode), returns=Str)
+@contract(C + "_get_node_text", props=["C17", "C02", "C11", "C13", "C19"], types=dict(node=TSNode), returns=Str)
 class GetNodeText:
     def requires(node):
         return node is not None
@@ -87,7 +87,7 @@ class GetNodeText:
         return node_text(node)
 
 
-@contract(C + "has_test_attribute", props=["C17", "C02"], types=dict(function_node=TSNode, prev_sibling=TSNode), returns=Bool)
+@contract(C + "has_test_attribute", props=["C17", "C02", "C11", "C13", "C19"], types=dict(function_node=TSNode, prev_sibling=TSNode), returns=Bool)
 class HasTestAttribute:
     def requires(function_node):
         return function_node is not None
@@ -109,7 +109,7 @@ class HasTestAttribute:
         return -1 if prev_sibling is None else ts_sibling_index(prev_sibling)
 
 
-@contract(C + "has_cfg_test_attribute", props=["C17", "C02"], types=dict(mod_node=TSNode, prev_sibling=TSNode), returns=Bool)
+@contract(C + "has_cfg_test_attribute", props=["C17", "C02", "C11", "C13", "C19"], types=dict(mod_node=TSNode, prev_sibling=TSNode), returns=Bool)
 class HasCfgTestAttribute:
     def requires(mod_node):
         return mod_node is not None
@@ -154,7 +154,7 @@ def test_module_as_documented(mod_node):
     return call(C + "has_cfg_test_attribute", mod_node) == doc_has_cfg_test_attr(mod_node.prev_sibling)
 
 
-@contract(C + "_is_test_context", props=["C17", "C02"], types=dict(node=TSNode), returns=Bool)
+@contract(C + "_is_test_context", props=["C17", "C02", "C11", "C13", "C19"], types=dict(node=TSNode), returns=Bool)
 class IsTestContext:
     def requires(node):
         return node is not None
@@ -163,7 +163,7 @@ class IsTestContext:
         return test_ctx_code(node)
 
 
-@contract(C + "is_inside_test", props=["C17", "C02"], types=dict(node=TSNode, current=TSNode), returns=Bool)
+@contract(C + "is_inside_test", props=["C17", "C02", "C11", "C13", "C19"], types=dict(node=TSNode, current=TSNode), returns=Bool)
 class IsInsideTest:
     def value(node):
         return inside_test_from(node)
@@ -175,7 +175,7 @@ class IsInsideTest:
         return ts_depth(current)
 
 
-@contract(C + "_has_async_modifier", props=["C17"], types=dict(modifiers_node=TSNode), returns=Bool)
+@contract(C + "_has_async_modifier", props=["C17", "C11", "C13", "C19"], types=dict(modifiers_node=TSNode), returns=Bool)
 class HasAsyncModifier:
     def requires(modifiers_node):
         return modifiers_node is not None
@@ -184,7 +184,7 @@ class HasAsyncModifier:
         return has_async_modifier(modifiers_node)
 
 
-@contract(C + "is_async_function", props=["C17"], types=dict(node=TSNode), returns=Bool)
+@contract(C + "is_async_function", props=["C17", "C11", "C13", "C19"], types=dict(node=TSNode), returns=Bool)
 class IsAsyncFunction:
     def requires(node):
         return node is not None
@@ -205,7 +205,7 @@ def collect_type_seq(s: SeqOf(TSNode), node_type: Str) -> SeqOf(TSNode):
     return collect_type(s[0], node_type) + collect_type_seq(s[1:], node_type)
 
 
-@contract(B + "RustBaseAnalyzer._walk_tree_recursive", props=["C17"],
+@contract(B + "RustBaseAnalyzer._walk_tree_recursive", props=["C17", "C11", "C13", "C19"],
           types=dict(node=TSNode, node_type=Str, nodes=SeqOf(TSNode)), modifies=["nodes"])
 class WalkTreeRecursive:
     def requires(self, node, node_type, nodes):
@@ -218,14 +218,14 @@ class WalkTreeRecursive:
         return old.nodes + collect_type(node, node_type) == nodes + collect_type_seq(rest, node_type)
 
 
-@contract(B + "RustBaseAnalyzer.walk_tree", props=["C17"], types=dict(self=BaseT, node=TSNode, node_type=Str),
+@contract(B + "RustBaseAnalyzer.walk_tree", props=["C17", "C11", "C13", "C19"], types=dict(self=BaseT, node=TSNode, node_type=Str),
           returns=SeqOf(TSNode))
 class WalkTree:
     def ensures_all_matches_once_in_document_order(self, node, node_type, result):
         return implies(node is not None, result == collect_type(node, node_type)) and implies(node is None, len(result) == 0)
 
 
-@contract(B + "RustBaseAnalyzer.extract_identifier_name", props=["C17"], types=dict(node=TSNode), returns=Str)
+@contract(B + "RustBaseAnalyzer.extract_identifier_name", props=["C17", "C11", "C13", "C19"], types=dict(node=TSNode), returns=Str)
 class ExtractIdentifierName:
     def requires(self, node):
         return node is not None
@@ -238,13 +238,13 @@ class ExtractIdentifierName:
         return first_of_type(node.children, "identifier") == first_of_type(rest, "identifier")
 
 
-@contract(B + "RustBaseAnalyzer.is_inside_test", props=["C17", "C02"], types=dict(self=BaseT, node=TSNode), returns=Bool)
+@contract(B + "RustBaseAnalyzer.is_inside_test", props=["C17", "C02", "C11", "C13", "C19"], types=dict(self=BaseT, node=TSNode), returns=Bool)
 class BaseIsInsideTest:
     def value(self, node):
         return inside_test_from(node)
 
 
-@contract(B + "RustBaseAnalyzer.is_async_function", props=["C17"], types=dict(self=BaseT, node=TSNode), returns=Bool)
+@contract(B + "RustBaseAnalyzer.is_async_function", props=["C17", "C11", "C13", "C19"], types=dict(self=BaseT, node=TSNode), returns=Bool)
 class BaseIsAsyncFunction:
     def requires(self, node):
         return node is not None
@@ -293,7 +293,7 @@ rust_root = uf("rust_root", [Str], TSNode, concrete=_native_parse)
 from contracts import c12_sites as _c12_sites  # noqa: E402,F401  (registers those externals)
 
 
-@contract(B + "RustBaseAnalyzer.parse_rust", props=["C17", "C02"], types=dict(self=BaseT, code=Str), returns=Opt(TSNode))
+@contract(B + "RustBaseAnalyzer.parse_rust", props=["C17", "C02", "C11", "C13", "C19"], types=dict(self=BaseT, code=Str), returns=Opt(TSNode))
 class ParseRust:
     """Verified up to the external parser call: whenever tree-sitter is available the result IS the parser's root node
     for exactly this text -- whatever the tree looks like (ERROR / MISSING nodes, has_error) -- and nothing else."""
